@@ -14,7 +14,7 @@ import os
 
 from vf import core, pipeline, tlaval, tlc
 
-FORMULAS = {'StopTerminates', 'SavedAtStop', 'SavedAtRestart', 'SilentAfterStop', 'ResumeFromTip', 'NoReannounce', 'PhaseOrder', 'NoPanic'}
+FORMULAS = {'StopTerminates', 'SavedAtStop', 'SavedAtRestart', 'SilentAfterStop', 'ResumeFromTip', 'NoReannounce', 'PhaseOrder', 'FeedSafe', 'NoPanic'}
 
 SYNC = [('Accept', 0, ''), ('Version', 0, ''), ('Headers', 2, ''), ('Block', 0, ''), ('Block', 0, ''), ('Headers', 0, '')]
 DIRECTED = [
@@ -33,6 +33,13 @@ DIRECTED = [
                             ('Headers', 0, ''), ('Tx', 0, ''), ('Close', 0, 'rst'), ('Accept', 0, ''), ('Version', 0, ''), ('Headers', 0, ''), ('Stop', 0, '')]),
     ('close-mid-block', [('Accept', 0, ''), ('Version', 0, ''), ('Headers', 2, ''), ('Block', 0, 'gate'), ('Close', 0, 'fin'), ('Release', 0, ''),
                          ('Accept', 0, ''), ('Version', 0, ''), ('Headers', 1, ''), ('Block', 0, ''), ('Stop', 0, '')]),
+    # a thread of the application keeps submitting transactions (Node.HandleTx) while a call-back is held: the channel is full and
+    # the submitting call is blocked when the shutdown wants to close the channel
+    ('feed-then-stop', SYNC + [('Headers', 1, ''), ('Block', 0, 'gate'), ('Feed', 0, ''), ('Stop', 0, ''), ('Release', 0, '')]),
+    ('feed-then-stop-syncing', [('Accept', 0, ''), ('Version', 0, ''), ('Headers', 2, ''), ('Block', 0, 'gate'), ('Feed', 0, ''), ('Stop', 0, ''), ('Release', 0, '')]),
+    ('feed-then-close', SYNC + [('Headers', 1, ''), ('Block', 0, 'gate'), ('Feed', 0, ''), ('Close', 0, 'fin'), ('Release', 0, ''), ('Accept', 0, ''), ('Version', 0, ''),
+                                ('Headers', 0, ''), ('Stop', 0, '')]),
+    ('feed-released-then-stop', SYNC + [('Headers', 1, ''), ('Block', 0, 'gate'), ('Feed', 0, ''), ('Release', 0, ''), ('Tx', 0, ''), ('Stop', 0, '')]),
     ('close-mid-block-then-stop', [('Accept', 0, ''), ('Version', 0, ''), ('Headers', 2, ''), ('Block', 0, 'gate'), ('Close', 0, 'rst'), ('Stop', 0, ''), ('Release', 0, '')]),
 ]
 
